@@ -27,14 +27,24 @@
     flags 0, RDLENGTH 0) as the last record of the message; no TSIG record is appended.  (Frame
     lemma with `k = true`: the whole answering phase preserves the TSIG slot and the EDNS payload;
     `finish` is read backwards in `Proofs/FinishInv`.)
+  For TSIG-signed requests (verdict `tsigReached`; `Proofs/FinishTsig`, `Proofs/ServerSigned`):
+  * `C09_signed_nodata_opt` — an authenticated request with a no-data verdict: after the question the
+    response holds exactly the OPT record (iff the scan reached an OPT; owner root, TYPE 41, CLASS =
+    server payload size, TTL 0 = extended RCODE 0 / version 0 / flags 0, RDLENGTH 0) and then the TSIG
+    record, last; ARCOUNT = (OPT ? 2 : 1);
+  * `C09_signed_error_opt` — the same for requests the TSIG step rejects (NOTAUTH / FORMERR replies);
+  * `C09_signed_answer_opt` — an authenticated request that a loaded zone answers: the octets before
+    the TSIG record end with exactly that OPT record iff the scan reached an OPT.
   Not proved (hence `_partial`): that the records which the *answering phase itself* puts into the
   additional section are not of type 41 (they are the A/AAAA records of additional-section
   processing, C06's subject — note that a zone may hold OPT-typed data, a known finding of C02, which
-  can appear in the answer section), and the case of a request with a TSIG record that verifies
-  (verdict `tsigReached`, C10's subject).  The differential check (audit tags `C09:*`) covers both.
+  can appear in the answer section); hence `C09_full`, which counts the type-41 records of the decoded
+  additional section of *every* response, is proved for all responses without answer data and, for
+  answers, up to that one fact.  The differential check (audit tags `C09:*`) covers it.
 -/
 import QV.Proofs.ServerProps
 import QV.Proofs.ServerEcho
+import QV.Proofs.ServerSigned
 
 namespace QV.C09
 open QV QV.Spec.Server QV.ServerScan
@@ -143,6 +153,92 @@ theorem C09_answer_opt (cfg : Server.Cfg) (tr : Server.Transport) (now bufLen : 
     refine ⟨h1, h2, x.toNat, ?_⟩
     rw [h1, Nat.add_sub_cancel, h3]
     simp [optRecordOctets]
+
+/-! ### TSIG-signed requests -/
+
+/-- **Theorem (signed, no-data).** An authenticated request with a no-data verdict: ARCOUNT is
+    (OPT ? 2 : 1) and after the question come exactly the OPT record — iff the scan reached an OPT —
+    and the TSIG record. -/
+theorem C09_signed_nodata_opt (cfg : Server.Cfg) (hcfg : ServerSafety.CfgWF cfg) (tr : Server.Transport)
+    (now bufLen : Nat) (req : Bytes)
+    (hbuf : minBuf tr cfg.payload ≤ bufLen) (hpay : 512 ≤ cfg.payload) (hreq : req.size ≤ Rdata.USIZE_MAX)
+    (hnow : now < 2^48)
+    (hr : (specScanWith (catKind cfg) cfg.payload req).respond = true)
+    (hv : (specScanWith (catKind cfg) cfg.payload req).verdict = .tsigReached) :
+    ∃ (t : Tsig.ReadTsigRr) (mw : Bytes) (r' : Reader.Reader), r'.octets = req ∧ r'.cursor ≤ req.size ∧
+      ∀ r'' S, Server.tsigAfter cfg now t mw r' (preTsigState cfg tr bufLen req) = (.ok (some r''), S) →
+      ∀ v, (v = Verdict.formErr ∨ v = .notImp ∨ v = .refused ∨ v = .servFailZone) →
+        endVerdict (catKind cfg) req.size (specScanWith (catKind cfg) cfg.payload req).question
+          r'.cursor ((req.getD 2 0).toNat / 8 % 16) = v →
+        ∃ b, Server.handleMessage cfg tr now bufLen req = .ok (some b) ∧
+          hdr b 10 = (if (specScanWith (catKind cfg) cfg.payload req).edns then 2 else 1) ∧
+          ∃ oe ts mac, Writer.NameShape ts.rr.keyName oe ∧
+            b.toList.drop 12 = specQuestionOctets (specScanWith (catKind cfg) cfg.payload req).question ++
+              (if (specScanWith (catKind cfg) cfg.payload req).edns then optRecordOctets cfg.payload 0 else []) ++
+              Writer.tsigRecordOctets oe ts mac := by
+  obtain ⟨t, mw, r', h1, h2, h3⟩ := signed_noData_full cfg hcfg tr now bufLen req hbuf hpay hreq hnow hr hv
+  refine ⟨t, mw, r', h1, h2, fun r'' S hT v hvv hev => ?_⟩
+  obtain ⟨b, hb, hS⟩ := h3 r'' S hT v hvv hev
+  obtain ⟨oe, ts, mac, hsh, hrest⟩ := hS.rest
+  refine ⟨b, hb, hS.ar, oe, ts, mac, hsh, ?_⟩
+  rw [hrest]
+  unfold signedOptOctets optRecordOctets
+  cases (specScanWith (catKind cfg) cfg.payload req).edns <;> simp [u16be]
+
+/-- **Theorem (signed, rejected).** A request that the TSIG step does not authenticate (reply TSIG
+    fits): the NOTAUTH / FORMERR response holds, after the question, exactly the OPT record — iff the
+    scan reached an OPT — and the TSIG record. -/
+theorem C09_signed_error_opt (cfg : Server.Cfg) (tr : Server.Transport) (now bufLen : Nat) (req : Bytes)
+    (hbuf : minBuf tr cfg.payload ≤ bufLen) (hpay : 512 ≤ cfg.payload) (hreq : req.size ≤ Rdata.USIZE_MAX)
+    (hr : (specScanWith (catKind cfg) cfg.payload req).respond = true)
+    (hv : (specScanWith (catKind cfg) cfg.payload req).verdict = .tsigReached) :
+    ∃ (t : Tsig.ReadTsigRr) (mw : Bytes) (r' : Reader.Reader), r'.octets = req ∧ r'.cursor ≤ req.size ∧
+      ∀ nowT kn an rc mode rr, Tsig.TimeSigned.tryFromUnix now = some nowT →
+        Writer.WName.parse t.keyName = some (kn, []) → Writer.WName.parse t.algorithm = some (an, []) →
+        tsigStopReply Tsig.realHmac cfg.keys nowT t mw.toList kn an = some (rc, mode, rr) →
+        ServerTsig.TsigFits (preTsigState cfg tr bufLen req) mode rr →
+        ∀ b, Server.handleMessage cfg tr now bufLen req = .ok (some b) →
+          hdr b 10 = (if (specScanWith (catKind cfg) cfg.payload req).edns then 2 else 1) ∧
+          ∃ oe ts mac, Writer.NameShape ts.rr.keyName oe ∧
+            b.toList.drop 12 = specQuestionOctets (specScanWith (catKind cfg) cfg.payload req).question ++
+              (if (specScanWith (catKind cfg) cfg.payload req).edns then optRecordOctets cfg.payload 0 else []) ++
+              Writer.tsigRecordOctets oe ts mac := by
+  obtain ⟨t, mw, r', h1, h2, h3⟩ := tsig_error_response cfg tr now bufLen req hbuf hpay hreq hr hv
+  refine ⟨t, mw, r', h1, h2, fun nowT kn an rc mode rr hnow hkn han hrep hfit b hb => ?_⟩
+  obtain ⟨oe, sT, _, hsh, _, hbl⟩ := h3 nowT kn an rc mode rr hnow hkn han hrep hfit b hb
+  have hrc : rc < 16 := by rcases tsigStopReply_rc hrep with rfl | rfl <;> omega
+  have hS := signedNoData_of_list req cfg.payload _ rc hrc oe _ _ hsh b hbl
+  obtain ⟨oe', ts, mac, hsh', hrest⟩ := hS.rest
+  refine ⟨hS.ar, oe', ts, mac, hsh', ?_⟩
+  rw [hrest]
+  unfold signedOptOctets optRecordOctets
+  cases (specScanWith (catKind cfg) cfg.payload req).edns <;> simp [u16be]
+
+/-- **Theorem (signed, answered).** An authenticated request that a loaded zone answers: the
+    response is `pre ++ TSIG record`, and `pre` ends with exactly one OPT record of the prescribed
+    shape iff the scan reached an OPT (otherwise `pre` is what the answering phase wrote). -/
+theorem C09_signed_answer_opt (cfg : Server.Cfg) (tr : Server.Transport) (now bufLen : Nat) (req : Bytes)
+    (hbuf : minBuf tr cfg.payload ≤ bufLen) (hpay : 512 ≤ cfg.payload) (hreq : req.size ≤ Rdata.USIZE_MAX)
+    (hr : (specScanWith (catKind cfg) cfg.payload req).respond = true)
+    (hv : (specScanWith (catKind cfg) cfg.payload req).verdict = .tsigReached) :
+    ∃ (t : Tsig.ReadTsigRr) (mw : Bytes) (r' : Reader.Reader), r'.octets = req ∧ r'.cursor ≤ req.size ∧
+      ∀ r'' S, Server.tsigAfter cfg now t mw r' (preTsigState cfg tr bufLen req) = (.ok (some r''), S) →
+        endVerdict (catKind cfg) req.size (specScanWith (catKind cfg) cfg.payload req).question
+          r'.cursor ((req.getD 2 0).toNat / 8 % 16) = .answer →
+      ∀ b, Server.handleMessage cfg tr now bufLen req = .ok (some b) →
+        ∃ pre oe ts mac, Writer.NameShape ts.rr.keyName oe ∧ b.toList = pre ++ Writer.tsigRecordOctets oe ts mac ∧
+          ((specScanWith (catKind cfg) cfg.payload req).edns = true →
+            ∃ x upper, pre = x ++ optRecordOctets cfg.payload upper) ∧
+          ((specScanWith (catKind cfg) cfg.payload req).edns = false →
+            ∃ w1 : Writer.State, pre = Writer.finishPrefix w1) := by
+  obtain ⟨t, mw, r', h1, h2, h3⟩ := signed_answer_response cfg tr now bufLen req hbuf hpay hreq hr hv
+  refine ⟨t, mw, r', h1, h2, fun r'' S hT hev b hb => ?_⟩
+  obtain ⟨nowT, alg, key, kn, _, _, _, _, _, pre, oe, hsh, hbl, hopt, hno⟩ := h3 r'' S hT hev b hb
+  refine ⟨pre, oe, _, _, hsh, hbl, fun he => ?_, hno⟩
+  obtain ⟨x, upper, hx⟩ := hopt he
+  refine ⟨x, upper, ?_⟩
+  rw [hx, Writer.optRecord_shape]
+  simp [optRecordOctets]
 
 /-! ### the decision at an OPT record (spec level) -/
 
